@@ -35,7 +35,8 @@ THEOREMS = ['C13_dedup_merges_equal', 'C13_dedup_merges_tested',
             'C13_dedup_idempotent', 'C13_renumber_den', 'C13_dedup_den',
             'C13_dedup_helper_merge_refuted', 'C13_inline_den',
             'C13_inline_model', 'C13_inline_total',
-            'C13_acyclic_unique_model', 'C13_fill_geometry_den']
+            'C13_acyclic_unique_model', 'C13_fill_geometry_den',
+            'C13_options_same_geometry']
 TRUSTED = [
     'hand-written model coq/C13/Model.v (modelled, tied by execution only)',
     'Python dict lookup by hash then ==: modelled as "first stored key equal '
